@@ -34,6 +34,9 @@ type Program struct {
 	impls    map[string][]*ssa.Function // interface method key -> implementing repo functions
 	allNamed []*types.Named
 	SrcHash  map[string]string
+	Recorded map[string]*FuncNames // names the contracts were written against (govc names)
+	aliases  map[*ssa.Function]map[string][]string
+	knownCallee map[string]bool
 }
 
 func IsRepoPath(p string) bool {
